@@ -18,6 +18,7 @@ Pool == << R(FALSE, "s1", {}, {}), R(FALSE, "s2", {}, {}), R(FALSE, "s1", {}, {e
            R(FALSE, "s1", {exampleOrg}, {}), R(FALSE, "s2", {exampleOrg}, {}), R(FALSE, "s3", {subExampleOrg}, {}),
            R(FALSE, "s3", {exampleOrg, exampleCom}, {}), R(FALSE, "s2", {exampleOrg}, {subExampleOrg}),
            R(FALSE, "s1", {exampleWild}, {}), R(FALSE, "s1", {exampleCom}, {exampleCom}), R(FALSE, "s3", {}, {exampleWild}),
+           R(FALSE, "s2", {exampleWild, otherOrg}, {}),
            R(TRUE, "s1", {exampleOrg}, {}), R(TRUE, "s1", {subExampleOrg}, {}), R(TRUE, "s2", {exampleCom}, {}),
            R(TRUE, "s3", {exampleWild}, {}), R(TRUE, "s2", {exampleOrg}, {subExampleOrg}) >>
 NP == Len(Pool)
